@@ -133,6 +133,11 @@ def generate(rng, tier):
                      "peer": rng.choice(["best", "best", "first_improving", "worst_improving", "always_best"])})
     case["max_nodes"] = rng.choice([50, 200]) if case["solver"] == "bp" else None
     case["max_iter"] = rng.choice([None, None, 20, 100])
+    # a relative gap tolerance below 1/20 cannot legitimise a non-minimal plan on these instances (objective <= 20 rolls,
+    # integer objective), so OPTIMAL must still mean minimal
+    case["gap_tol"] = rng.choice([None, None, 0.01, 0.04]) if case["solver"] == "bp" else None
+    if case["mode"] == "custom" and case["initial"] and rng.random() < 0.25:
+        case["initial"].insert(rng.randrange(len(case["initial"]) + 1), list(rng.choice(case["initial"])))  # a column listed twice
     case["seq_as"] = rng.choice(["list", "list", "tuple"])
     case["faults"] = {
         "cancel": rng.random() < 0.8,
@@ -192,6 +197,8 @@ def run_variant(case, policy, max_iter=None, max_nodes=None):
         kw["max_iter"] = max_iter
     if solver == "bp":
         kw["max_nodes"] = max_nodes if max_nodes is not None else case["max_nodes"]
+        if case.get("gap_tol") is not None:
+            kw["gap_tol"] = case["gap_tol"]
     real_kp = mod.knapsack_pricing
 
     def kp(*a, **k):
@@ -278,7 +285,7 @@ def judge(case, v, o: Outcome, label, opt, faulted, fault_kind):
     if opt is not None:
         if total < opt:
             raise AssertionError(f"reference optimum {opt} above a valid plan of {total}: oracle bug ({case})")
-        if st == "OPTIMAL" and total > opt:
+        if st == "OPTIMAL" and total > opt and not (case.get("gap_tol") and total > 20):
             o.violate(PROP, "mislabelled_optimal", f"{label}: status OPTIMAL with {total} rolls, true minimum is {opt} (plan {sol})", **key)
 
 
